@@ -7,7 +7,8 @@ The I/O monad every reader/writer model function is written in.
   past the end returns 0 bytes, a write past the end zero-fills the gap, seeking past the end is
   allowed, seeking to a negative position is `InvalidInput`.
 * Every primitive (`read`, `write`, `flush`, `seek`) counts as one I/O call.  The parameter
-  `Option Nat` is the index of the call that fails with an injected error (`none`: no fault).
+  `Option Nat` is the index of the call that fails with an injected error (`none`: no fault); the KIND of
+  that error is the device's `fkind` (any `io::ErrorKind` the crate can tell apart).
   On an error the device state persists (position, contents, call counter) — later calls see it.
 * `M.run none` is the fault-free semantics used by the round-trip theorems; `M.run (some k)` is the
   single-fault semantics used by C11.
@@ -19,9 +20,16 @@ structure Dev where
   buf : Bytes
   pos : Nat
   calls : Nat
+  /-- the `io::ErrorKind` with which this device fails when the fault fires.  A device property: no primitive
+  changes it.  Nothing may be assumed about it — in particular it can be `InvalidInput`, the kind a refused seek
+  to a negative position has, or `UnexpectedEof`, the kind `read_exact` reports at the end of the data. -/
+  fkind : IoKind := .injected
   deriving Repr
 
-def Dev.ofBytes (bs : Bytes) : Dev := ⟨bs, 0, 0⟩
+def Dev.ofBytes (bs : Bytes) : Dev := { buf := bs, pos := 0, calls := 0 }
+
+/-- the same bytes behind a device that fails with kind `k` -/
+def Dev.ofBytesK (bs : Bytes) (k : IoKind) : Dev := { buf := bs, pos := 0, calls := 0, fkind := k }
 
 def M (α : Type) : Type := Option Nat → Dev → Out α × Dev
 
@@ -51,7 +59,7 @@ def getDev : M Dev := fun _ d => (.ok d, d)
 /-- One I/O call: counted, and failing when its index is the injected fault. -/
 def prim {α} (f : Dev → Out α × Dev) : M α := fun fa d =>
   let d1 : Dev := { d with calls := d.calls + 1 }
-  if fa = some d.calls then (.err (.io .injected), d1) else f d1
+  if fa = some d.calls then (.err (.io d.fkind), d1) else f d1
 
 end M
 
